@@ -23,7 +23,7 @@ ALLOPS = ops.BINARY + [o for o in ops.UNARY if o != 'sqrt'] + SERIES
 
 
 def floors(tier):
-    f = {'distinct_nontrivial': 2500 if tier == 'quick' else 40000, 'variant_permuted': 600, 'variant_padded': 600,
+    f = {'distinct_nontrivial': 2500 if tier == 'quick' else 60000, 'variant_permuted': 600, 'variant_padded': 600,
          'variant_dense': 100, 'exception_parity_checked': 20, 'wrapper_configured_cases': 300}
     for o in ALLOPS:
         f['op_' + o] = (25 if tier == 'quick' else 300) if 'polarity' not in o else (10 if tier == 'quick' else 100)
@@ -44,7 +44,7 @@ def plan(tier, seed):
         cfgs += [gen.random_custom_cfg(rng, rng.choice((2, 3, 3, 4))) for _ in range(40)] + gen.NAMED
         cfgs += [dict(c, opts={'wrapper': w}) for c, w in zip(rng.sample(gen.sig_orderings(2, 3), 24), ('wraps', 'identity') * 12)]
         cfgs += [dict(c, opts={'cse': False}) for c in rng.sample(gen.sig_orderings(2, 3), 6)]
-        per = 10
+        per = 22
         nshards = 64
     for c in cfgs:
         U.append({'cfg': c, 'per_op': per})
